@@ -40,9 +40,13 @@ var boxTicks sync.Map // *msg.Box -> chan time.Time
 
 // newTickBox: the garbage collector runs (sweep 1 h on a hand-driven ticker) but nothing can expire legitimately: the expiry is
 // 2^40 epochs. The clock is started by a Send on an unrelated topic before the first tick.
-func newTickBox(h *boxHandler) *msg.Box {
+func newTickBox(h *boxHandler, ratio int) *msg.Box {
 	tick := make(chan time.Time)
-	b := &msg.Box{Logger: common.Nolog{}, MaxInFlightTopicsBySender: 1000, GCSweep: time.Nanosecond, GCExpire: time.Nanosecond << 40,
+	expire := time.Nanosecond << 40
+	if ratio > 0 {
+		expire = time.Duration(ratio) * time.Nanosecond
+	}
+	b := &msg.Box{Logger: common.Nolog{}, MaxInFlightTopicsBySender: 1000, GCSweep: time.Nanosecond, GCExpire: expire,
 		NewTicker: func(time.Duration) *time.Ticker { return &time.Ticker{C: tick} }, ForwardSend: func(uint8, []byte, []byte, ...tss.UniversalID) {}, MessageHandler: h}
 	boxTicks.Store(b, tick)
 	return b
@@ -61,6 +65,7 @@ type c14cfg struct {
 	Limit   int
 	Samples int
 	Ticks   bool // hand-driven epoch clock; operation "k" advances it by one epoch
+	Ratio   int  // with Ticks: topics expire after this many idle epochs (0: 2^40, nothing can expire)
 }
 
 func mkOp(b *msg.Box, d string) func() { return mkOpShift(b, d, 0) }
@@ -158,7 +163,7 @@ func runCtl(cfg c14cfg, choose func(step int, n int) int) (choices, enabled []in
 	h := &boxHandler{}
 	b := newBox(h)
 	if cfg.Ticks {
-		b = newTickBox(h)
+		b = newTickBox(h, cfg.Ratio)
 		defer boxTicks.Delete(b)
 	}
 	msg.SetVerifHook(func(string) {})
@@ -229,6 +234,25 @@ type ctlSchedResult struct {
 func c14configs(e common.Env) []c14cfg {
 	L := e.Pick(6000, 400000)
 	S := e.Pick(600, 20000)
+	cfgs := c14baseConfigs(L, S, e)
+	// a topic on which the local party sends in every epoch never idles: it must stay started however long the session lasts
+	// (expiry: 3 idle epochs), so a message received right after its Send in epoch k is forwarded at once — there is no later Send
+	// that could flush it. One configuration per k = 3..9, so that every phase of a periodic collector is met.
+	for k := 3; k <= 9; k++ {
+		th := []string{"s:T"}
+		for ep := 2; ep <= k; ep++ {
+			th = append(th, "k", "s:T")
+			if ep%3 == 0 {
+				th = append(th, "s:U") // other topics come and go
+			}
+		}
+		th = append(th, "r:T:7:m1")
+		cfgs = append(cfgs, c14cfg{Name: fmt.Sprintf("clock, expiry 3 epochs: Send T in each of %d epochs, then recv T", k), Ticks: true, Ratio: 3, Pre: []string{"s:Z", "k"}, Threads: [][]string{th}, Limit: 4})
+	}
+	return cfgs
+}
+
+func c14baseConfigs(L, S int, e common.Env) []c14cfg {
 	return []c14cfg{
 		{Name: "recv m1 || Send", Threads: [][]string{{"r:T:7:m1"}, {"s:T"}}, Limit: L},
 		{Name: "m0 buffered; recv m1 || Send", Pre: []string{"r:T:7:m0"}, Threads: [][]string{{"r:T:7:m1"}, {"s:T"}}, Limit: L},
@@ -244,6 +268,8 @@ func c14configs(e common.Env) []c14cfg {
 		{Name: "clock: recv T,Send T || Send U || tick", Ticks: true, Pre: []string{"s:Z", "k"}, Threads: [][]string{{"r:T:7:m1", "s:T"}, {"s:U"}, {"k"}}, Limit: L, Samples: S},
 		{Name: "clock: Send T,recv T || Send U || tick", Ticks: true, Pre: []string{"s:Z", "k"}, Threads: [][]string{{"s:T", "r:T:7:m1"}, {"s:U"}, {"k"}}, Limit: L, Samples: S},
 		{Name: "clock: m0 buffered; recv T,Send T || Send U,Send V || tick,tick", Ticks: true, Pre: []string{"s:Z", "k", "r:T:7:m0"}, Threads: [][]string{{"r:T:7:m1", "s:T"}, {"s:U", "s:V"}, {"k", "k"}}, Limit: L, Samples: S},
+		// a topic on which the local party keeps sending in every epoch never idles: it must stay started far beyond the expiry
+		// (3 idle epochs here), so a message received for it after 10 epochs is forwarded at once (there is no later Send)
 		{Name: "m0,m1 buffered; recv m2,m3 || Send || recv y1", Pre: []string{"r:T:7:m0", "r:T:7:m1"}, Threads: [][]string{{"r:T:7:m2", "r:T:7:m3"}, {"s:T"}, {"r:T:8:y1"}}, Limit: e.Pick(2000, 400000), Samples: S},
 	}
 }
